@@ -314,7 +314,7 @@ class K6Adapter(CaseAdapter):
 class K7Adapter(CaseAdapter):
     module_name = 'k7'
     label = 'K7 (harness/k7*.py)'
-    N = dict(quick={'C13': 150, 'C08': 250, 'C14': 200, 'C07': 200, 'C18': 48, 'C09': 100, 'C16': 100, 'C19': 120},
+    N = dict(quick={'C13': 150, 'C08': 250, 'C14': 200, 'C07': 400, 'C18': 48, 'C09': 100, 'C16': 100, 'C19': 120},
              thorough={'C13': 3000, 'C08': 20000, 'C14': 12000, 'C07': 6000, 'C18': 200, 'C09': 6000, 'C16': 6000, 'C19': 8000})
     SEARCH = dict(quick=150, thorough=800)
     rule = ('seeded whole backtests on synthetic CSV markets written to a temporary directory (1-4 assets, gaps, missing cells, '
